@@ -251,6 +251,76 @@ def check():
         o.inconc("eval_declaration: a role has no path (%s)" % kinds)
     mirlib.check_translator(o, ex, "eval_declaration")
 
+    naming_lemmas(o, L, S, M, E, (f_rec, f_nid, f_push, f_new), structural, on_sat)
+
+    # every scope on the evaluator's stack got its identifier from push_scope (component names of recs hash the
+    # identifier of the innermost scope: a scope pushed with a constant identifier is shared by all instantiations)
+    sfld = None
+    srcv = open(os.path.join(REPO, "oal-compiler/src/eval.rs")).read()
+    mctx = re.search(r"pub struct Context<[^>]*>\s*\{(.*?)\n\}", srcv, re.S)
+    if mctx:
+        cf = re.findall(r"^\s*(?:pub(?:\(\w+\))?\s+)?(\w+)\s*:", mctx.group(1), re.M)
+        sfld = cf.index("scopes") if "scopes" in cf else None
+    if sfld is None:
+        o.inconc("eval::Context: field `scopes` not found")
+    else:
+        pushers = []
+        for f in M.funcs:
+            if not f.args or "eval::Context" not in f.args[0][1]:
+                continue
+            for b in f.blocks.values():
+                if b.cleanup or not b.term:
+                    continue
+                _, pt = mp.stmts_of(b)
+                if pt[0] != "call":
+                    continue
+                callee, args = pt[2], pt[3]
+                if re.search(r"Vec::<.*>::(push|insert|extend|append)", callee) and args and args[0][0] in ("move", "copy") and args[0][1][0] == "place" and not args[0][1][2]:
+                    recv = args[0][1][1]
+                    # the receiver is a reference to ((*_1).scopes)
+                    for bb in f.blocks.values():
+                        for st in mp.stmts_of(bb)[0]:
+                            if st[0] == "assign" and st[1] == ("place", recv, ()) and st[2][0] in ("refmut", "ref") and st[2][1][0] == "place" and st[2][1][1] == 1 and \
+                                    len(st[2][1][2]) == 2 and st[2][1][2][0] == ("deref",) and st[2][1][2][1][:2] == ("f", sfld):
+                                pushers.append(f.short)
+        o.extra["scope_stack_pushers"] = sorted(set(pushers))
+        structural("Context: scopes are pushed by push_scope only, so every scope has a fresh identifier", bool(pushers) and set(pushers) <= {"eval::push_scope"})
+
+    # the emitter side of "each recursion point is a $ref": a generated reference is written in place only for kinds whose
+    # emitter emits no nested schema (shared with C01)
+    try:
+        import props.c01 as c01
+        MOe = mirlib.module("oal-openapi")
+        c01.maybe_inline_lemmas(o, L, S, MOe, E, on_sat)
+    except Exception as exn:
+        o.inconc("maybe_inline lemmas: %s" % str(exn)[:160])
+
+    # the definition graph cycles_check works on: while a declaration is being resolved it is the graph's current node
+    # from its start to its end - a rec inside it neither opens nor closes a node - so every reference inside a
+    # declaration, wherever it stands, becomes an edge
+    graph_lemmas(o, L, S, M, E, structural, on_sat)
+
+    o.samples = [{"query": q["name"], "verdict": q["verdict"]} for q in o.queries[:16]]
+    rdir = new_replay_dir("C09", "recursion")
+    probs, detail = run_programs(rdir)
+    o.extra["real_cli_cyclic_programs"] = detail
+    with open(os.path.join(rdir, "cmd"), "w") as f:
+        f.write("#!/bin/sh\ncd /verif && exec ./check C09 --replay %s\n" % rdir)
+    if bad:
+        if probs:
+            o.violation("recursion is not cut into named components; lemma(s): %s; real oal-cli: %s" % ("; ".join(bad[:3]), "; ".join(probs[:3])), rdir)
+        else:
+            o.inconc("UNCONFIRMED: lemma(s) fail (%s) but the real oal-cli treats all %d cyclic programs as the statement demands" % ("; ".join(bad[:3]), len(detail)))
+    elif probs:
+        o.oracle_only("real oal-cli deviates (%s) although every lemma holds" % "; ".join(probs[:3]), rdir)
+    return o.finish()
+
+
+def naming_lemmas(o, L, S, M, E, fs, structural, on_sat):
+    """How a recursion point gets its component name: the rec node and the innermost evaluation scope, fresh scope
+    identifiers, the digest (shared with C05: naming a sub-expression or turning it into a function must not make two
+    instantiations share a name)."""
+    f_rec, f_nid, f_push, f_new = fs
     # ---------------------------------------------------------------- eval_recursion / node_identifier / push_scope
     ex = mirlib.executor([M])
     seen = False
@@ -337,67 +407,6 @@ def check():
         if p.kind == "return" and fld is not None:
             structural("Context::new: the scope counter starts at zero in every evaluation", ms.proj(p.ret, ("f", fld), E) == ms.C("int", 0))
 
-    # every scope on the evaluator's stack got its identifier from push_scope (component names of recs hash the
-    # identifier of the innermost scope: a scope pushed with a constant identifier is shared by all instantiations)
-    sfld = None
-    srcv = open(os.path.join(REPO, "oal-compiler/src/eval.rs")).read()
-    mctx = re.search(r"pub struct Context<[^>]*>\s*\{(.*?)\n\}", srcv, re.S)
-    if mctx:
-        cf = re.findall(r"^\s*(?:pub(?:\(\w+\))?\s+)?(\w+)\s*:", mctx.group(1), re.M)
-        sfld = cf.index("scopes") if "scopes" in cf else None
-    if sfld is None:
-        o.inconc("eval::Context: field `scopes` not found")
-    else:
-        pushers = []
-        for f in M.funcs:
-            if not f.args or "eval::Context" not in f.args[0][1]:
-                continue
-            for b in f.blocks.values():
-                if b.cleanup or not b.term:
-                    continue
-                _, pt = mp.stmts_of(b)
-                if pt[0] != "call":
-                    continue
-                callee, args = pt[2], pt[3]
-                if re.search(r"Vec::<.*>::(push|insert|extend|append)", callee) and args and args[0][0] in ("move", "copy") and args[0][1][0] == "place" and not args[0][1][2]:
-                    recv = args[0][1][1]
-                    # the receiver is a reference to ((*_1).scopes)
-                    for bb in f.blocks.values():
-                        for st in mp.stmts_of(bb)[0]:
-                            if st[0] == "assign" and st[1] == ("place", recv, ()) and st[2][0] in ("refmut", "ref") and st[2][1][0] == "place" and st[2][1][1] == 1 and \
-                                    len(st[2][1][2]) == 2 and st[2][1][2][0] == ("deref",) and st[2][1][2][1][:2] == ("f", sfld):
-                                pushers.append(f.short)
-        o.extra["scope_stack_pushers"] = sorted(set(pushers))
-        structural("Context: scopes are pushed by push_scope only, so every scope has a fresh identifier", bool(pushers) and set(pushers) <= {"eval::push_scope"})
-
-    # the emitter side of "each recursion point is a $ref": a generated reference is written in place only for kinds whose
-    # emitter emits no nested schema (shared with C01)
-    try:
-        import props.c01 as c01
-        MOe = mirlib.module("oal-openapi")
-        c01.maybe_inline_lemmas(o, L, S, MOe, E, on_sat)
-    except Exception as exn:
-        o.inconc("maybe_inline lemmas: %s" % str(exn)[:160])
-
-    # the definition graph cycles_check works on: while a declaration is being resolved it is the graph's current node
-    # from its start to its end - a rec inside it neither opens nor closes a node - so every reference inside a
-    # declaration, wherever it stands, becomes an edge
-    graph_lemmas(o, L, S, M, E, structural, on_sat)
-
-    o.samples = [{"query": q["name"], "verdict": q["verdict"]} for q in o.queries[:16]]
-    rdir = new_replay_dir("C09", "recursion")
-    probs, detail = run_programs(rdir)
-    o.extra["real_cli_cyclic_programs"] = detail
-    with open(os.path.join(rdir, "cmd"), "w") as f:
-        f.write("#!/bin/sh\ncd /verif && exec ./check C09 --replay %s\n" % rdir)
-    if bad:
-        if probs:
-            o.violation("recursion is not cut into named components; lemma(s): %s; real oal-cli: %s" % ("; ".join(bad[:3]), "; ".join(probs[:3])), rdir)
-        else:
-            o.inconc("UNCONFIRMED: lemma(s) fail (%s) but the real oal-cli treats all %d cyclic programs as the statement demands" % ("; ".join(bad[:3]), len(detail)))
-    elif probs:
-        o.oracle_only("real oal-cli deviates (%s) although every lemma holds" % "; ".join(probs[:3]), rdir)
-    return o.finish()
 
 
 def cycles_lemmas(o, L, S, M, E, f_cyc, structural, on_sat):
